@@ -777,3 +777,82 @@ def dispatch_by_specialisation(ctx, fi: FuncInfo, subject: str, sps, extra_value
             val = None
         table[key] = ('raise', None, sp) if missing and sp.end == 'return' else (sp.end, val, sp)
     return table
+
+
+def interpret(ctx, fi: FuncInfo, env: dict, limit=2000):
+    """Follow the path of a function whose tests the checker's evaluator decides for the concrete arguments `env`
+    -> (end, value node with look-ups in constant tables resolved, SymPath); the value itself is NOT evaluated (it may build
+    objects).  AnalysisError when a test cannot be decided."""
+    from .consteval import NotConst
+    for sp in symex.func_sym_paths(fi, limit):
+        if any(e.kind == 'except' for e in sp.events):
+            continue
+        taken = True
+        for c, t in sp.conds:
+            try:
+                v = ctx.ce.eval(c, fi.module, fi.cls, dict(env))
+            except (NotConst, TypeError, KeyError, ValueError, IndexError) as e:
+                folded = _FoldLookups(ctx, fi, env).visit(clone(c))
+                d = symex._decide(folded)
+                if d is None:
+                    try:
+                        v = ctx.ce.eval(folded, fi.module, fi.cls, dict(env))
+                        d = bool(v)
+                    except (NotConst, TypeError, KeyError, ValueError, IndexError):
+                        raise AnalysisError(f'{fi.loc}: `{src(c)[:80]}` cannot be interpreted for {env}: {e}')
+                v = d
+            if bool(v) != t:
+                taken = False
+                break
+        if not taken:
+            continue
+        val = _FoldLookups(ctx, fi, env).visit(clone(sp.value)) if sp.value is not None else None
+        return sp.end, val, sp
+    raise AnalysisError(f'{fi.loc}: no path of {fi.qualname} is taken for {env}')
+
+
+class _FoldLookups(_Specialise):
+    """Look-ups in constant dicts whose key the evaluator computes from the concrete arguments are replaced by the entry."""
+
+    def __init__(self, ctx, fi, env):
+        super().__init__(ctx, fi, '\x00', ast.Constant(value=None))
+        self.env = env
+
+    def _entry(self, table, knode):
+        ok, kv = self.ctx.ce.try_eval(knode, self.fi.module, self.fi.cls, dict(self.env))
+        if not ok:
+            return None, False
+        for k, v in zip(table.keys, table.values):
+            ok2, k2 = self.ctx.ce.try_eval(k, self.fi.module, self.fi.cls, {})
+            if ok2 and k2 == kv:
+                return clone(v), True
+        return None, True
+
+
+def expand_call(ctx, call: ast.Call, fi: FuncInfo):
+    """A call of a kernpy function whose body is ONE expression (an anchor included) replaced by that expression with the
+    arguments substituted; None when the callee is not resolved or not of that form."""
+    if symex.INLINER is None or not isinstance(call, ast.Call):
+        return None
+    try:
+        t, bound = _static_callee(ctx, call, fi)
+    except AnalysisError:
+        return None
+    if t is None or t.module.generated or t.name == '__init__':
+        return None
+    e = symex.INLINER.single_expr(t)
+    if e is None:
+        return None
+    try:
+        b = bind_args(call, t, bound and t.kind in ('method', 'classmethod'))
+    except AnalysisError:
+        return None
+    if '**' in b:
+        return None
+    mapping = dict(b)
+    for p in t.all_params:
+        if p not in mapping:
+            d = param_default(t, p)
+            if d is not None:
+                mapping[p] = d
+    return G.substitute(e, mapping, recursive=False)
